@@ -200,7 +200,7 @@ def run(ck):
     ]
     ck.rule = ("unit: random enqueue (equal / two / mixed sizes 8..249) / getNext / isFull / reset sequences for ring sizes N in {1,2,3,5,10,50}; "
                "trace: interrogation commands answered by ACT_CON + bursts of 1..60 replies (+ACT_TERM) with k in {1,2,3,5,12}, high-priority queue sizes {1,2,5,50}, events interleaved, partial acknowledgements; non-trivial = distinct script")
-    ck.explanation = "PARTIAL: scheduler order theorems and the refinement of the byte-offset HighPriorityASDUQueue ring to a FIFO (every ring size, every history, no stale read, entries inside the arena) are proved in Coq; the byte-offset ring of the EVENT queue (MessageQueue) behind the clause about event order / resumption is validated by differential execution and a FIFO oracle on every run (C06), its ring invariant is not proved."
+    ck.explanation = "PARTIAL: scheduler order theorems and the refinement of the byte-offset HighPriorityASDUQueue ring to a FIFO (every ring size, every history, no stale read, entries inside the arena) are proved in Coq; the byte-offset ring of the EVENT queue (MessageQueue) behind the clause about event order / resumption is validated by differential execution and a FIFO oracle on every run (C06), its ring is proved separately (C06: no stale read, only the oldest entries displaced, oldest waiting entry handed out); what remains unproved is the composition of the scheduler model (abstract queues) with the two ring refinements into one trace theorem."
     ck.coq("C13")
     h = c06.harness()
     try:
